@@ -97,8 +97,8 @@ def container_rule(ctx, p):
                 det.append(f"{norm_text(call.func)}({kwv})")
                 return good
             ok = check_call(single[0].value, "result")
-            br = wire.enclosing_branches(m, single[0])
-            ok = ok and len(br) == 1 and br[0][1] and norm_text(br[0][0].test) == "not isinstance(result, list)"
+            # the single-result form is taken exactly when the result is not a list, the comprehension exactly when it is
+            ok = ok and wire.path_conds(m, single[0]) == [("isinstance(result, list)", False)] and wire.path_conds(m, lists[0]) == [("isinstance(result, list)", True)]
             lc = lists[0].value
             ok = ok and len(lc.generators) == 1 and norm_text(lc.generators[0].iter) == "result" and not lc.generators[0].ifs and isinstance(lc.generators[0].target, ast.Name) and isinstance(lc.elt, ast.Call)
             if ok:
